@@ -3,6 +3,7 @@
 __all__ = ['_defaultFetcher']
 
 import functools
+import http.client
 import urllib.error
 import urllib.request
 
@@ -43,6 +44,9 @@ def _defaultFetcher(url):
     except urllib.error.URLError as e:
         # URLError like mailto: or other IO errors, e can be raised
         log.warn('URLError, %s' % e.reason, error=e)
+    except http.client.HTTPException as e:
+        # e.g. InvalidURL, a URL containing white space or control characters
+        log.warn('HTTPException, %r' % e, error=OSError)
     except OSError as e:
         # e.g if file URL and not found
         log.warn(e, error=OSError)
